@@ -121,6 +121,17 @@ class LoopMixin:
                 out.append((s, IterDesc(z3.Length(v.e), (lambda v: lambda i: SV(v.t.elem, v.e[i]))(v))))
             elif v.t == ty.Str:
                 out.append((s, IterDesc(z3.Length(v.e), (lambda v: lambda i: SV(ty.Str, z3.SubSeq(v.e, i, 1)))(v))))
+            elif isinstance(v.t, ty.Set):
+                # iteration over a set: some sequence that enumerates exactly the members (order unspecified, repetitions harmless for the
+                # properties proved): every element is a member, every member occurs at position where(x)
+                elems = ty.fresh(ty.Seq(v.t.key), "elems")
+                q = z3.Int("q!set%d" % self._fresh())
+                x = z3.Const("x!set%d" % self._fresh(), ty.sort_of(v.t.key))
+                where = z3.Function("where!%d" % self._fresh(), ty.sort_of(v.t.key), z3.IntSort())
+                s.assume(z3.ForAll([q], z3.Implies(z3.And(0 <= q, q < z3.Length(elems.e)), z3.Select(v.e, elems.e[q]))))
+                s.assume(z3.ForAll([x], z3.Implies(z3.Select(v.e, x), z3.And(0 <= where(x), where(x) < z3.Length(elems.e), elems.e[where(x)] == x))))
+                self.assumptions.add("iteration over a set: modelled as a sequence enumerating exactly its members (order unspecified)")
+                out.append((s, IterDesc(z3.Length(elems.e), (lambda elems, t: lambda i: SV(t, elems.e[i]))(elems, v.t.key))))
             elif isinstance(v.t, ty.Tuple):
                 parts = ops.tuple_parts(v)
                 out.append((s, IterDesc(z3.IntVal(len(parts)), (lambda parts: lambda i: parts[i.as_long() if hasattr(i, "as_long") else i])(parts), len(parts))))
@@ -226,11 +237,13 @@ class LoopMixin:
         return outs
 
     # ---- invariant-based ----------------------------------------------------------------------
-    def inv_env(self, st, spec, idx):
+    def inv_env(self, st, spec, idx, d=None):
         # invariants see the *current* values of variables (parameters included); entry values are reached through old(...)
         loc = {k: v for k, v in self.entry_locals.items() if k not in st.vars}
         if idx is not None:
             loc[spec.get("index", "_i")] = SV(ty.Int, idx)
+        if d is not None:
+            loc["elem_at"] = lambda k: d.elem(k.e)      # the k-th element of the iterated sequence, for invariants
         return Env(st, self.entry, loc)
 
     def havoc_writes(self, st, writes, stable_objs):
@@ -326,7 +339,7 @@ class LoopMixin:
         is_for = d is not None
         # 1. invariant holds on entry
         for k, inv in enumerate(spec["inv"]):
-            self.oblige("%s/inv-init-%d" % (tag, k), st, self.spec.boolean(inv, self.inv_env(st, spec, z3.IntVal(0) if is_for else None)), "inv-init")
+            self.oblige("%s/inv-init-%d" % (tag, k), st, self.spec.boolean(inv, self.inv_env(st, spec, z3.IntVal(0) if is_for else None, d)), "inv-init")
         # 2. havoc
         writes, stable = self.discover_writes(stmt, st, d)
         h = self.havoc_writes(st.copy(), writes, stable)
@@ -337,7 +350,7 @@ class LoopMixin:
             h.assume(idx >= 0)
             h.assume(idx <= d.n)
         for inv in spec["inv"]:
-            h.assume(self.spec.boolean(inv, self.inv_env(h, spec, idx)))
+            h.assume(self.spec.boolean(inv, self.inv_env(h, spec, idx, d)))
         # 3. one arbitrary iteration
         body_starts = []
         exits = []
@@ -369,7 +382,7 @@ class LoopMixin:
                     nidx = idx + 1 if is_for else None
                     self._pres_paths[tag] = self._pres_paths.get(tag, 0) + 1
                     for k, inv in enumerate(spec["inv"]):
-                        self.oblige("%s/inv-pres-%d%s" % (tag, k, "" if self._pres_paths[tag] == 1 else "@path-%d" % self._pres_paths[tag]), o.st, self.spec.boolean(inv, self.inv_env(o.st, spec, nidx)), "inv-pres")
+                        self.oblige("%s/inv-pres-%d%s" % (tag, k, "" if self._pres_paths[tag] == 1 else "@path-%d" % self._pres_paths[tag]), o.st, self.spec.boolean(inv, self.inv_env(o.st, spec, nidx, d)), "inv-pres")
                     if "decreases" in spec:
                         m1 = self.spec.eval(spec["decreases"], self.inv_env(o.st, spec, nidx)).e
                         self.oblige("%s/decreases" % tag, o.st, z3.And(measure0 >= 0, m1 < measure0), "decreases")
